@@ -30,26 +30,27 @@ fn hash_of(v: &Val) -> u64 {
     }
 }
 
-fn exec(c: &Case) -> Vec<String> {
+/// One producer replica `me`: build the fake topology from the `<next_kw>` lines, run the real
+/// `End` over the `<elem_kw>` script, return the output lines (prefixed with `tag`).
+fn run_producer(c: &Case, me: Coord, next_kw: &str, elem_kw: &str, tag: &str) -> Vec<String> {
     let strategy = c.header[1].as_str();
-    let me = parse_coord(&c.header[2]);
     let feedback: Option<u64> = c.header[3].parse().ok();
     let mut net = FakeNet::new(me);
     let mut receivers: Vec<FakeReceiver<Val>> = vec![];
     let mut ignore = vec![];
     let mut script = vec![];
     for op in &c.ops {
-        match op[0].as_str() {
-            "next" => {
-                let to = parse_coord(&op[1]);
-                if receivers.iter().any(|r| r.to == to) {
-                    continue; // a replica is connected once
-                }
-                receivers.push(net.add_next::<Val>(to, op[2] == "1"));
+        let kw = op[0].as_str();
+        if kw == next_kw {
+            let to = parse_coord(&op[1]);
+            if receivers.iter().any(|r| r.to == to) {
+                continue; // a replica is connected once
             }
-            "ignore" => ignore.push(op[1].parse::<u64>().unwrap()),
-            "e" => script.push(parse_elem(&op[1]).expect("bad elem")),
-            _ => {}
+            receivers.push(net.add_next::<Val>(to, op[2] == "1"));
+        } else if kw == "ignore" {
+            ignore.push(op[1].parse::<u64>().unwrap());
+        } else if kw == elem_kw {
+            script.push(parse_elem(&op[1]).expect("bad elem"));
         }
     }
     let n = script.len();
@@ -89,12 +90,23 @@ fn exec(c: &Case) -> Vec<String> {
                     }
                 }
                 let t: Vec<String> = per.iter().map(|(b, k)| format!("{b}:{k}")).collect();
-                out.push(format!("{step} {} R {}", fmt_elem(&e), t.join(",")));
+                out.push(format!("{tag}{step} {} R {}", fmt_elem(&e), t.join(",")));
             } else {
                 let t: Vec<String> = l.iter().map(coord).collect();
-                out.push(format!("{step} {} {}", fmt_elem(&e), t.join(",")));
+                out.push(format!("{tag}{step} {} {}", fmt_elem(&e), t.join(",")));
             }
         }
+    }
+    out
+}
+
+/// The optional second producer (`header[4]`, lines `next2` / `e2`, outputs prefixed `P2 `) is
+/// another replica — of the same or of another block — with its own `End` and its own connection
+/// order towards (mostly) the same downstream replicas.
+fn exec(c: &Case) -> Vec<String> {
+    let mut out = run_producer(c, parse_coord(&c.header[2]), "next", "e", "");
+    if let Some(me2) = c.header.get(4).filter(|s| s.contains('.')) {
+        out.extend(run_producer(c, parse_coord(me2), "next2", "e2", "P2 "));
     }
     out
 }
@@ -170,6 +182,41 @@ fn gen(rng: &mut Rng, i: usize) -> Case {
         c.op(&["e", "FAR"]);
     }
     c.op(&["e", "TERM"]);
+    // a second producer replica (another replica of the same block, or a replica of another
+    // block — the two inputs of a join) towards the same downstream replicas, connected in its
+    // own order; sometimes one downstream replica is missing for it
+    if !malformed && strategy != "OnlyOne" && rng.chance(2, 5) {
+        let me2 = if rng.chance(1, 2) {
+            format!("{}.0.{}", me_block, 4 + rng.range(0, 3))
+        } else {
+            let mut b2 = 10 + rng.range(0, 3) as u64;
+            while blocks.contains(&b2) {
+                b2 += 1;
+            }
+            format!("{b2}.0.{}", rng.range(0, 3))
+        };
+        c.header.push(me2);
+        let mut nexts2 = nexts.clone();
+        if rng.chance(1, 6) && nexts2.len() > 1 {
+            let j = rng.below(nexts2.len() as u64) as usize;
+            nexts2.remove(j);
+        }
+        for k in (1..nexts2.len()).rev() {
+            let j = rng.below(k as u64 + 1) as usize;
+            nexts2.swap(k, j);
+        }
+        for (n, f) in &nexts2 {
+            c.op(&["next2", n, if *f { "1" } else { "0" }]);
+        }
+        for _ in 0..rng.range(1, 10) {
+            let h = *rng.pick(&keys);
+            v += 1;
+            let e = if rng.chance(1, 3) { format!("T:({h},{v}):{}", rng.range(0, 50)) } else { format!("I:({h},{v})") };
+            c.ops(vec!["e2".into(), e]);
+        }
+        c.op(&["e2", "FAR"]);
+        c.op(&["e2", "TERM"]);
+    }
     if malformed && rng.chance(1, 2) {
         c.ops(vec!["e".into(), (*rng.pick(&["W:3", "I:(1,1)", "FB", "TERM", "FAR"])).into()]);
     }
